@@ -59,6 +59,7 @@ ApplyI(stk, st, dev, I) ==
     \* map_columns({old: new, ..., deleted: None}): st[2] = <<old, new>> pairs, st[3] = deleted columns
     [] st[1] = "map_columns"    -> SetTop(stk, Rename(DropColumns(top, st[3]), [i \in 1..Len(st[2]) |-> <<st[2][i][2], st[2][i][1]>>]))
     [] st[1] = "order_rows"     -> SetTop(stk, OrderRows(top, st[2], st[3], st[4]))
+    [] st[1] = "unpivot"        -> SetTop(stk, Unpivot(top, st[2]))
     [] st[1] = "join"           -> Append(SubSeq(stk, 1, n - 2), JoinDev(stk[n - 1], top, st[2], st[3], dev))
     [] st[1] = "joinc"          -> Append(SubSeq(stk, 1, n - 2), JoinDev(stk[n - 1], top, st[2], st[3], dev))
     [] st[1] = "concat"         -> Append(SubSeq(stk, 1, n - 2), Concat(stk[n - 1], top, st[2]))
@@ -81,6 +82,7 @@ WellFormed(st, stk) ==
                                    /\ \A i \in 1..Len(st[2]) : ~Has(st[3], st[2][i][1])
                                    /\ RenameOK([i \in 1..Len(st[2]) |-> <<st[2][i][2], st[2][i][1]>>], Without(cols, st[3]))
     [] st[1] = "order_rows"     -> NoDup(st[2]) /\ SetOf(st[2]) \subseteq SetOf(cols) /\ SetOf(st[3]) \subseteq SetOf(st[2])
+    [] st[1] = "unpivot"        -> UnpivotOK(st[2], cols)
     [] st[1] = "join"           -> n >= 2 /\ JoinOK(st[2], st[3], stk[n - 1].cols, cols)
     \* joinc = natural_join(..., check_all_common_keys_in_equi_spec=True)
     [] st[1] = "joinc"          -> n >= 2 /\ JoinOK(st[2], st[3], stk[n - 1].cols, cols)
@@ -96,6 +98,8 @@ Observable(st, stk) ==
          /\ (Len(st[4]) > 0 => TotalOn(top.rows, st[3] \o st[4]))
     [] st[1] = "order_rows" ->
          (st[4] > 0) => (NullFreeOn(top.rows, st[2]) /\ TotalOn(top.rows, st[2]))
+    \* convert_records needs a table keyed by its record keys (no duplicates, no missing keys)
+    [] st[1] = "unpivot" -> LET K == Without(top.cols, st[2]) IN TotalOn(top.rows, K) /\ NullFreeOn(top.rows, K)
     \* arguments outside a method's documented domain (division by zero, log of a negative, ...) are not observed
     [] st[1] = "extend" -> \A i \in 1..Len(st[2]) : \A r \in 1..Len(top.rows) : DefinedE(st[2][i][2], top.rows[r])
     [] st[1] = "select_rows" -> \A r \in 1..Len(top.rows) : DefinedE(st[2], top.rows[r])
@@ -157,6 +161,10 @@ DepApply(dstk, st) ==
              rn == [i \in 1..Len(st[2]) |-> <<st[2][i][2], st[2][i][1]>>] IN
          SetTop(dstk, [top EXCEPT !.c = [x \in {NewName(rn, y) : y \in keep} |-> top.c[OldName(rn, x)]]])
     [] st[1] = "order_rows"     -> SetTop(dstk, [top EXCEPT !.r = @ \cup ColsDeps(top, SetOf(st[2]))])
+    [] st[1] = "unpivot" ->
+         LET K == DOMAIN top.c \ SetOf(st[2]) IN
+         SetTop(dstk, [top EXCEPT !.c = [x \in K \cup {"kk", "vv"} |->
+                         IF x = "kk" THEN {} ELSE IF x = "vv" THEN ColsDeps(top, SetOf(st[2])) ELSE top.c[x]]])
     [] st[1] \in {"join", "joinc"} ->
          LET L == dstk[n - 1] R == top on == st[3]
              kl == {on[p][1] : p \in 1..Len(on)}  kr == {on[p][2] : p \in 1..Len(on)} IN
@@ -389,6 +397,7 @@ ColumnSteps(cols) ==
                  q \in Samp(2, {r \in {"x2", "h2"} \X SetOf(cols) : Kind[r[1]] = Kind[r[2]]})}
              \cup {<<"rename", <<<<p[1], p[2]>>, <<p[2], p[1]>>>>>> :
                       p \in Samp(1, {q \in Pairs(SetOf(cols)) : Kind[q[1]] = Kind[q[2]]})}
+             \cup {<<"unpivot", <<p[1], p[2]>>>> : p \in Samp(1, Pairs(KindCols(cols, "n")))}
              \cup {<<"map_columns", <<<<q[2], q[1]>>>>, d>> :
                       q \in Samp(2, {r \in {"x2", "h2"} \X SetOf(cols) : Kind[r[1]] = Kind[r[2]]}),
                       d \in Samp(2, {<<>>} \cup {<<c>> : c \in SetOf(cols)})})
